@@ -610,6 +610,10 @@ class Scope:
     rng_key = (child_rng_token, name)
     if rng_key in self.rng_counters:
       rng_counters = self.rng_counters.get(rng_key)  # type: ignore
+      # the counters may have been created by a lifted scope that did not
+      # carry all of this scope's rng streams.
+      for key in rngs:
+        rng_counters.setdefault(key, 0)  # type: ignore
     else:
       rng_counters = {key: 0 for key in rngs}
       self.rng_counters[rng_key] = rng_counters  # type: ignore
